@@ -2,6 +2,6 @@
    Only ExtrOcamlBasic (bool, option, unit, prod, list, sumbool mapped to OCaml's);
    Z, positive, nat stay the inductive types; no Extract Constant. *)
 From Coq Require Import Extraction ExtrOcamlBasic.
-From ArchSim Require Import Model.Main.
+From ArchSim Require Import Model.Main Model.MainSpec.
 Extraction Language OCaml.
-Extraction "model.ml" Main.dispatch Base.U.
+Extraction "model.ml" MainSpec.dispatch_all Main.dispatch Base.U.
